@@ -16,12 +16,12 @@ import fastavro._read_py as R
 import fastavro.io.json_encoder as JE
 import fastavro.io.json_decoder as JD
 
-SCHEMAS = ["rec_defaults4", "rec_defaults5", "rec_defaults3", "prim_int", "prim_string", "prim_null", "prim_bytes", "prim_double", "prim_boolean", "enum", "fixed", "rec_flat",
+SCHEMAS = ["rec_defaults4", "rec_defaults5", "rec_defaults6", "rec_defaults3", "prim_int", "prim_string", "prim_null", "prim_bytes", "prim_double", "prim_boolean", "enum", "fixed", "rec_flat",
            "rec_empty", "rec_floats", "rec_defaults", "rec_defaults2", "pair_array_int", "pair_array_record", "pair_map_long",
            "pair_map_record", "pair_array_union", "pair_map_union", "pair_field_union", "pair_field_map", "pair_field_array",
            "union_prims", "union_two_recs", "union_named_mix", "union_arr_map", "chain_arr_arr", "chain_rec_union_rec_arr",
            "ref_after_def", "ns_inherit", "ns_dotted", "rec_list", "rec_tree", "rec_mutual", "map_key_is_field", "err_type"]
-QUICK = ["prim_int", "prim_bytes", "enum", "fixed", "rec_flat", "rec_empty", "rec_defaults", "rec_defaults4", "rec_defaults5", "pair_array_record", "pair_map_long",
+QUICK = ["prim_int", "prim_bytes", "enum", "fixed", "rec_flat", "rec_empty", "rec_defaults", "rec_defaults4", "rec_defaults5", "rec_defaults6", "pair_array_record", "pair_map_long",
          "pair_field_union", "union_two_recs", "union_named_mix", "ref_after_def", "ns_inherit", "rec_list", "rec_tree",
          "map_key_is_field", "pair_map_union"]
 
@@ -88,6 +88,32 @@ def ob_json(c, v, two, parsed):
         return False, f"json_reader raised {type(e).__name__}: {e} on {text!r}"
     if not _same_by_value(back, norm):
         return False, f"json_reader returned {back!r}, written {norm!r} (text {text!r})"
+    return True, ""
+
+
+def ob_count(name, n):
+    """n records (concrete) through json_writer/json_reader: used to probe size thresholds found in the source"""
+    c = case(name) if "case" in globals() else l2.case(name)
+    d = shape.build(c["ir"], c["names"], shape.samples(c["ir"], c["names"], c["cfg"], 1, n=1)[0], c["cfg"])
+    recs = [d] * n
+    want = [jsonspec.to_json(c["ir"], r, c["names"]) for r in recs]
+    try:
+        text = _write(c, recs, True, True)
+    except Exception as e:
+        return False, f"json_writer raised {type(e).__name__}: {e} for {n} records"
+    lines = text.split("\n") if text != "" else []
+    try:
+        got = [_native_loads(l) for l in lines]
+    except Exception:
+        return False, f"json_writer output for {n} records is not one JSON document per line (lines: {len(lines)})"
+    if got != want:
+        return False, f"json_writer wrote {len(got)} documents for {n} records, or documents that differ from the specification's"
+    try:
+        back = list(JR.json_reader(io.StringIO(text), c["parsed"]))
+    except Exception as e:
+        return False, f"json_reader raised {type(e).__name__}: {e} on the text of {n} records"
+    if len(back) != n:
+        return False, f"json_reader returned {len(back)} records for {n} written"
     return True, ""
 
 
@@ -158,7 +184,7 @@ def ob_defaults(c, v, mask):
         d = shape.build(c["ir"], c["names"], v, c["cfg"])
     except OutOfDomain:
         return True, "out of domain"
-    if not (0 <= mask < 8):
+    if not (0 <= mask < 32):
         return True, "out of domain"
     try:
         j = jsonspec.to_json(c["ir"], d, c["names"])
